@@ -70,6 +70,14 @@ func execC11(t *testing.T, p Plan, src kernel.Source) Result {
 		}
 		runtime.ReadMemStats(&m1)
 		alloc := int64(m1.TotalAlloc - m0.TotalAlloc)
+		if p.X["flood"] != 0 {
+			// constant memory per connection includes the connection goroutine's stack: a
+			// long run of rejected commands must not make it grow
+			if grown := int64(m1.StackInuse) - int64(m0.StackInuse); grown > 256<<10 {
+				viol("stack_growth", class, "%s: the goroutine stacks grew by %d bytes while %d rejected commands were answered", desc, grown, p.X["flood"])
+				return
+			}
+		}
 		big = alloc > 64<<20
 		allowed := int64(1<<20) + 4*p.X["declared"]
 		if alloc > allowed {
@@ -224,6 +232,10 @@ func genC11(seed uint64, tier string) Plan {
 		data = append(data, encode(proto, op)...)
 	}
 	mut := pick(g, []string{"bitflip", "bitflip", "truncate", "length_edit", "garbage_prefix", "garbage", "byte_edit", "dup_tail", "text_number"})
+	if g.p(1, 40) {
+		mut = "flood"
+	}
+	flood := 0
 	desc := ""
 	switch mut {
 	case "bitflip":
@@ -279,6 +291,12 @@ func genC11(seed uint64, tier string) Plan {
 		pos := g.n(len(data))
 		data[pos] = pick(g, []byte{0, '\r', '\n', ' ', 0x80, 0xff})
 		desc = fmt.Sprintf("byte %d of a valid %s pipeline replaced by %#02x", pos, proto, data[pos])
+	case "flood":
+		// a long uninterrupted run of text commands that the parser rejects
+		line := pick(g, []string{"get\r\n", "set k 0 0 x\r\n", "set k 0\r\n", "touch k\r\n", "set k x 0 1\r\n", "gat k\r\n"})
+		flood = pick(g, []int{4000, 8000, 12000})
+		data = bytes.Repeat([]byte(line), flood)
+		desc = fmt.Sprintf("%d times the text line %q", flood, line)
 	case "dup_tail":
 		cut := g.n(len(data) + 1)
 		data = append(data, data[cut:]...)
@@ -304,15 +322,23 @@ func genC11(seed uint64, tier string) Plan {
 		// text lengths, or headers created by the mutation itself: whatever the bytes declare is allowed
 		declared += 1 << 33
 	}
+	if mut == "flood" {
+		// every rejected line costs a few small allocations (the line, the reply)
+		declared = int64(len(data)) * 64
+	}
 	p := c11Plan(seed, data, "mutation/"+mut+"/"+proto, desc, false, declared)
 	p.Seg = pick(g, []int{0, 2})
+	if flood > 0 {
+		p.X["flood"] = int64(flood)
+		p.Seg = 0
+	}
 	return p
 }
 
 func init() {
 	register(&Prop{
 		ID: "C11", Gen: genC11, Exec: execC11, Enumerate: enumC11, Level: "fault_enumeration",
-		Rule:       "fault = arbitrary / malformed bytes from a client followed by EOF. Enumerated part: binary headers for every opcode 0..255 x key length {0,1,2,250,251,65535} x extras length {0,4,8,9,255} x total body {0, key+extras-1, key+extras, key+extras+1, 2^31, 2^32-1}, followed by 0 / total / key+extras / key+extras+3 body bytes (thorough: the whole grid; quick: every contradictory frame for the opcodes rend implements plus a ninth of the rest); seeded part: valid pipelines of both protocols mutated by bit flips (biased to headers), truncation at a drawn offset, length-field edits, garbage prefixes, pure garbage, single-byte edits, repeated tails, extreme text numbers. Oracle: quiescence is reached (a spin is caught by the watchdog), a frame with total body < key + extras is answered or the connection closed without waiting for more input, bytes allocated while decoding (runtime.MemStats.TotalAlloc delta) stay below 1 MiB + 4x the sizes the frame consistently declares, after EOF rend closes the connection and no goroutine executing repository code is left over, no pooled protocol object was handed back twice (poisoning pools), anything rend did send is well-formed, and another and a new connection are still served. Coverage-guided fuzzing (named in the property's quantifier) is a different technique and is not done. Every case injects malformed input; distinct = distinct plan hash",
+		Rule:       "fault = arbitrary / malformed bytes from a client followed by EOF. Enumerated part: binary headers for every opcode 0..255 x key length {0,1,2,250,251,65535} x extras length {0,4,8,9,255} x total body {0, key+extras-1, key+extras, key+extras+1, 2^31, 2^32-1}, followed by 0 / total / key+extras / key+extras+3 body bytes (thorough: the whole grid; quick: every contradictory frame for the opcodes rend implements plus a ninth of the rest); seeded part: valid pipelines of both protocols mutated by bit flips (biased to headers), truncation at a drawn offset, length-field edits, garbage prefixes, pure garbage, single-byte edits, repeated tails, extreme text numbers, and (one run in forty) a flood of 4000-12000 identical rejected text lines on one connection, after which the goroutine stacks must not have grown by more than 256 KiB. Oracle: quiescence is reached (a spin is caught by the watchdog), a frame with total body < key + extras is answered or the connection closed without waiting for more input, bytes allocated while decoding (runtime.MemStats.TotalAlloc delta) stay below 1 MiB + 4x the sizes the frame consistently declares, after EOF rend closes the connection and no goroutine executing repository code is left over, no pooled protocol object was handed back twice (poisoning pools), anything rend did send is well-formed, and another and a new connection are still served. Coverage-guided fuzzing (named in the property's quantifier) is a different technique and is not done. Every case injects malformed input; distinct = distinct plan hash",
 		Real:       realFullStack,
 		Stub:       stubFullStack,
 		FaultKinds: []string{"malformed_input"},
